@@ -526,6 +526,8 @@ def shapes(tier):
             for opts in ([{"initial"}, {"initial", "final"}, {"initial", "lower", "upper"}] if (thorough or len(ops) < 3) else [{"initial", "lower"}]):
                 out.append(buffer_shape(conc, ops, opts))
         out.append(buffer_shape(conc, "ul", {"initial"}, two_buffers=True))
+        out.append(buffer_shape(conc, "uL", {"initial"}))
+        out.append(buffer_shape(conc, "uLl", {"initial", "lower"}))
         out.append(buffer_shape(conc, "ull", {"initial", "upper"}, two_buffers=True))
     for kname, optional, release, due, horizon in itertools.product(
             _c01.KINDS if thorough else ["zero", "fixed", "var_minmax", "var_all"], (False, True), (False, True), (None, "deadline"), (False, True)):
